@@ -245,6 +245,21 @@ func (c07) snapshot(e *Env, prog string, dd bool) (*c07Snap, error) {
 				i++
 			}
 		}
+		// Files the first build added to GARBLE_CACHE/build that no cache-put note
+		// accounts for (a tree that stores entries some other way): still durable
+		// state of user packages, enumerated under positional roles.
+		mapped := map[string]bool{}
+		for _, rel := range snap.Roles {
+			mapped[rel] = true
+		}
+		i = 0
+		for _, f := range world.ListFiles(build) {
+			rel := filepath.Join("garblecache", "build", f)
+			if !stdBefore[f] && !mapped[rel] && f != "trim.txt" && !strings.HasSuffix(f, "README") {
+				snap.Roles[fmt.Sprintf("example.test/%s/unmapped|file|%d", prog, i)] = rel
+				i++
+			}
+		}
 		i = 0
 		for _, f := range world.ListFiles(w.GoCache) {
 			if !w.TmplFiles[f] && (strings.HasSuffix(f, "-a") || strings.HasSuffix(f, "-d")) {
